@@ -116,13 +116,13 @@ impl IterableKind {
             IterableKind::Booleans(_) => PrimitiveKind::Boolean,
             IterableKind::Graphs(_) => PrimitiveKind::Graph,
             IterableKind::Iterables(i) => {
-                let first = i
-                    .first()
-                    .map(|e| e.inner_type())
-                    .unwrap_or(PrimitiveKind::Undefined);
+                //every row is inspected once (nested arrays would otherwise be
+                //walked twice per level)
+                let mut kinds = i.iter().map(|e| e.inner_type());
+                let first = kinds.next().unwrap_or(PrimitiveKind::Undefined);
                 //rows of different kinds (integers and decimals, or different
                 //depths) only have a runtime type in common
-                if i.iter().any(|e| e.inner_type() != first) {
+                if kinds.any(|kind| kind != first) {
                     PrimitiveKind::Iterable(PrimitiveKind::Any.into())
                 } else {
                     PrimitiveKind::Iterable(first.into())
